@@ -180,6 +180,7 @@ type lockAnalysis struct {
 	info      map[*ssa.Function]*fnLock
 	specByFld map[*types.Var]*guardSpec
 	resident  map[*types.Named]*guardSpec
+	retRes    map[*ssa.Function]*guardSpec // functions returning a pointer to a table-resident object
 	impls     map[string][]*ssa.Function
 	fieldFns  map[*types.Var][]*ssa.Function // functions stored into func-typed struct fields
 	syncParam map[*ssa.Function]map[int]bool // params that are synchronous callbacks
@@ -311,6 +312,34 @@ func (c *Ctx) locks() *lockAnalysis {
 		}
 	}
 	la.prepass()
+	// functions handing a table-resident pointer to their caller (fixpoint over the static call graph)
+	la.retRes = map[*ssa.Function]*guardSpec{}
+	for ch, iter := true, 0; ch && iter < 6; iter++ {
+		ch = false
+		for _, fn := range c.SrcFns {
+			if la.retRes[fn] != nil || fn.Signature.Results().Len() == 0 {
+				continue
+			}
+			hasRes := false
+			for i := 0; i < fn.Signature.Results().Len(); i++ {
+				if la.residentSpecOf(fn.Signature.Results().At(i).Type()) != nil {
+					hasRes = true
+				}
+			}
+			if !hasRes {
+				continue
+			}
+			org, _ := la.origins(fn)
+			for _, ret := range returns(fn) {
+				for i := range ret.Results {
+					if o := org[retVal(ret, i)]; o != nil && o.table {
+						la.retRes[fn] = o.spec
+						ch = true
+					}
+				}
+			}
+		}
+	}
 	for _, fn := range c.SrcFns {
 		la.analyze(fn)
 	}
@@ -823,6 +852,11 @@ func (la *lockAnalysis) origins(fn *ssa.Function) (map[ssa.Value]*origin, map[ss
 					}
 				}
 			case *ssa.Call:
+				if g := x.Call.StaticCallee(); g != nil && la.retRes[g] != nil && la.residentSpecOf(x.Type()) != nil {
+					if merge(x, &origin{table: true, spec: la.retRes[g]}, org) {
+						changed = true
+					}
+				}
 				// append(slice, v): result may hold residents
 				if b, ok := x.Call.Value.(*ssa.Builtin); ok && b.Name() == "append" {
 					for _, a := range x.Call.Args {
